@@ -123,3 +123,28 @@ package util
 //@   invariant 0 <= j && j <= len && forall(k, 0, j, isSpace(at(chars, k))) && leadws(chars, 0) == leadws(chars, j)
 //@   invariant 0 <= i && i < len && !isSpace(at(chars, i)) && trailws(chars, len) == len - 1 - i
 //@   decreases len - j
+
+// checkAscii reads 8 and 4 bytes at a time through unsafe pointers: its contract is assumed (trusted idiom).
+//@ func checkAscii trusted
+//@ ensures r0 == forall(k, 0, len(bytes), bytes[k] < 128)
+//@ ensures !r0 ==> 0 <= r1 && r1 < len(bytes) && forall(k, 0, r1, bytes[k] < 128)
+
+// rcount(b): number of runes util.ToChars produces for the bytes b (uninterpreted; == len(b) for ASCII)
+//@ spec func rcount(b []byte) int extern
+
+//@ func RunesToChars
+//@ ensures !result.inBytes && result.slice == asBytes(runes) && !result.trimLengthKnown && result.trimLength == 0 && result.Index == 0
+
+//@ func ToChars
+//@ requires len(bytes) < 2147483648
+//@ ensures !result.trimLengthKnown && result.trimLength == 0 && result.Index == 0
+//@ ensures result.inBytes ==> result.slice == bytes && forall(k, 0, len(bytes), bytes[k] < 128)
+//@ ensures !result.inBytes ==> fresh(result.slice) && len(result.slice) <= len(bytes) && len(result.slice) >= 1 && forall(k, 0, len(result.slice), 0 <= asRunes(result.slice)[k] && asRunes(result.slice)[k] <= 1114111)
+//@ loop 1
+//@   invariant 0 <= i && i <= bytesUntil && bytesUntil < len(bytes) && len(runes) == bytesUntil && cap(runes) == len(bytes) && fresh(runes) && forall(k, 0, bytesUntil, bytes[k] < 128)
+//@   invariant forall(k, 0, i, 0 <= runes[k] && runes[k] <= 127)
+//@   decreases bytesUntil - i
+//@ loop 2
+//@   invariant bytesUntil <= i && i <= len(bytes) && bytesUntil <= len(runes) && len(runes) <= i && (i > bytesUntil ==> len(runes) >= 1) && fresh(runes) && bytesUntil < len(bytes)
+//@   invariant forall(k, 0, len(runes), 0 <= runes[k] && runes[k] <= 1114111)
+//@   decreases len(bytes) - i
